@@ -13,6 +13,7 @@ LABELS = {11: 'node lies in the canonical interval', 12: 'basis function is one 
           85: 'A - B holds exactly the indexes of A that are not in B', 86: 'getSlot returns the position of the index and -1 iff it is absent', 87: 'removeIndex removes exactly that index',
           88: 'StorageSet::addValues: the i-th strip is the value supplied for the i-th index of the merged set', 89: 'MultiIndexSet(Data2D) is the sorted duplicate-free set of the given rows',
           99: 'reachability witness'}
+BACKENDS = {'minisat': '', 'cadical': '--sat-solver cadical', 'kissat': '--external-sat-solver kissat'}
 CFLAGS = '-std=c++14 -O1 -fno-vectorize -fno-slp-vectorize -fno-unroll-loops'
 
 
@@ -21,15 +22,43 @@ def incs():
 
 
 class KConfig:
-    def __init__(self, name, harness, defines, unwind=16, entry='harness_rule', timeout=600, modv=200, link_lib=False, mem_gb=8, slots=1):
+    def __init__(self, name, harness, defines, unwind=16, entry='harness_rule', timeout=600, modv=200, link_lib=False, mem_gb=8, slots=1, order='llvm', backends=('kissat', 'minisat')):
         self.name, self.harness, self.defines, self.unwind, self.entry, self.timeout, self.modv = name, harness, defines, unwind, entry, timeout, modv
-        self.args = [defines]; self.time_budget_s = timeout; self.max_paths = 1; self.link_lib = link_lib; self.mem_gb = mem_gb; self.slots = slots
+        self.args = [defines]; self.time_budget_s = timeout; self.max_paths = 1; self.link_lib = link_lib; self.mem_gb = mem_gb; self.slots = slots; self.order = order; self.backends = backends
 
 
 def sh(cmd, timeout=900):
     t = time.time()
     r = subprocess.run(cmd, shell=True, capture_output=True, text=True, timeout=timeout, errors='replace')
     return r, time.time() - t
+
+
+def portfolio(cmds, timeout):
+    """runs the same CBMC query with several SAT back ends in parallel; the first process that prints a verdict wins, the others are killed.
+    Returns (stdout of the winner or of the last finisher, seconds, name of the back end)"""
+    t = time.time(); procs = []
+    for name, cmd in cmds:
+        procs.append((name, subprocess.Popen(cmd, shell=True, stdout=subprocess.PIPE, stderr=subprocess.STDOUT, text=True, errors='replace', start_new_session=True)))
+    outs = {}; winner = None
+    import select
+    pending = dict((p.stdout.fileno(), (n, p)) for n, p in procs); bufs = dict((n, []) for n, _ in procs)
+    while pending and time.time() - t < timeout + 30:
+        rd, _, _ = select.select(list(pending), [], [], 1.0)
+        for fd in rd:
+            n, p = pending[fd]; chunk = os.read(fd, 1 << 16).decode('utf-8', 'replace')
+            if chunk: bufs[n].append(chunk)
+            else:
+                p.wait(); del pending[fd]; outs[n] = ''.join(bufs[n])
+                if 'VERIFICATION' in outs[n] and winner is None: winner = n
+        if winner: break
+    for n, p in procs:
+        if p.poll() is None:
+            try: os.killpg(p.pid, 9)
+            except OSError: pass
+            p.wait()
+        outs.setdefault(n, ''.join(bufs[n]))
+    if winner is None: winner = procs[-1][0]
+    return outs[winner], time.time() - t, winner
 
 
 def run_k(kc):
@@ -43,7 +72,7 @@ def run_k(kc):
     def gen(tag, extra):
         r, _ = sh('%s %s %s %s %s -S -emit-llvm %s -o %s/%s.ll' % (build.CLANGXX, CFLAGS, incs(), kc.defines, extra, src, d, tag))
         if r.returncode: return 'cannot compile the harness (the encoded entity changed?): ' + r.stderr[-600:]
-        r, _ = sh('%s %s/%s.ll %s > %s/%s.c 2> %s/%s.err' % (os.path.join(build.BUILD, 'ir2c'), d, tag, kc.entry, d, tag, d, tag))
+        r, _ = sh('IR2C_ORDER=%s %s %s/%s.ll %s > %s/%s.c 2> %s/%s.err' % (kc.order, os.path.join(build.BUILD, 'ir2c'), d, tag, kc.entry, d, tag, d, tag))
         if r.returncode: return 'ir2c cannot translate: ' + open('%s/%s.err' % (d, tag)).read()[-600:]
         return None
     for tag, extra in (('h', ''), ('w', '-DWITNESS')):
@@ -73,8 +102,9 @@ def run_k(kc):
     # ---- the verdict
     cbmc = 'ulimit -v %d; timeout %d cbmc' % (kc.mem_gb * 1000000, kc.timeout)   # address-space cap: an out-of-memory run is reported as 'no verdict', never as success
     for attempt in range(3):   # the bound is raised (twice at most) when an unwinding assertion fails; the bound that was used is reported
-        r, dt = sh('%s %s/h.c %s %s 2>&1' % (cbmc, d, sup, flags), kc.timeout + 30); res['stats']['queries'] += 1; res['stats']['solver_s'] += dt
-        out = r.stdout
+        # SAT back ends differ by orders of magnitude on these formulas (minisat 900 s+ vs kissat 17 s on K_rule check 5; minisat 40 s vs cadical 108 s on K_sets check 2): portfolio
+        out, dt, backend = portfolio([(b, '%s %s/h.c %s %s %s 2>&1' % (cbmc, d, sup, flags, BACKENDS[b])) for b in kc.backends], kc.timeout)
+        res['stats']['queries'] += 1; res['stats']['solver_s'] += dt; res['notes']['sat_backend'] = backend
         pf = re.findall(r'^\[([^\]]+)\] (?:line \d+ )?(.*?): (SUCCESS|FAILURE)$', out, re.M)
         if attempt < 2 and pf and any('unwinding assertion' in p[1] and p[2] == 'FAILURE' for p in pf) and not any('unwinding assertion' not in p[1] and p[2] == 'FAILURE' for p in pf):
             flags = flags.replace('--unwind %d ' % kc.unwind, '--unwind %d ' % (kc.unwind + 2)); kc.unwind += 2; continue
@@ -91,7 +121,7 @@ def run_k(kc):
     real_fails = [p for p in fails if 'unwinding' not in p[1]]
     if real_fails:
         # counterexample: first failing property with a trace, replayed on the g++ build of the real code
-        r, dt = sh('%s %s/h.c %s %s --stop-on-fail --trace 2>&1' % (cbmc, d, sup, flags), kc.timeout + 30); res['stats']['queries'] += 1; res['stats']['solver_s'] += dt
+        r, dt = sh('%s %s/h.c %s %s %s --stop-on-fail --trace 2>&1' % (cbmc, d, sup, flags, '' if backend == 'minisat' else BACKENDS['cadical']), kc.timeout + 30)   # traces need an internal back end; res['stats']['queries'] += 1; res['stats']['solver_s'] += dt
         # nondet values: the generated C assigns `vK = nondet_int();`; the trace reports the assignment at that line
         vals = []
         csrc = open('%s/h.c' % d).read().split('\n')
@@ -115,7 +145,9 @@ def run_k(kc):
                                 'confirmed': confirmed, 'replay_observed': 'real code (g++) with nondet values %s prints: %s' % (vals, rr.stdout.strip().replace('\n', '; ')[-200:]), 'path': 0,
                                 'other_failing_properties': [p[1] for p in real_fails][:6]})
     # ---- witness twin: the final assert(0) must be reachable
-    r, dt = sh('%s %s/w.c %s %s 2>&1' % (cbmc, d, sup, flags), kc.timeout + 30); res['stats']['queries'] += 1; res['stats']['solver_s'] += dt
+    wout, dt, _b = portfolio([(b, '%s %s/w.c %s %s %s 2>&1' % (cbmc, d, sup, flags, BACKENDS[b])) for b in kc.backends], kc.timeout); res['stats']['queries'] += 1; res['stats']['solver_s'] += dt
+    class _R: pass
+    r = _R(); r.stdout = wout
     if not re.search(r'K99: FAILURE', r.stdout): res['inconclusive'].append({'what': 'vacuous: the reachability witness did not fail (the assertions are not reached)'})
     res['notes']['witness_twin_failed_as_required'] = 1 if re.search(r'K99: FAILURE', r.stdout) else 0
     ks = [k for k in res.get('relevant_ids', []) if re.match(r'K\d+$', k)]
